@@ -16,6 +16,11 @@
 //!       and are what the Lean model (Winter/Model/Parse.lean) needs: output `<parse>[ <front>]`, compared
 //!       with the model.
 //!
+//!   fri x <label> <log2 n> <blowup> <folding> <remainder degree> <queries> <edits>
+//!       the stand-alone FRI entry points on an honest FRI proof (64-bit field, Blake3_256) after the edits:
+//!       `FriProof::read_from_bytes`, `DefaultVerifierChannel::new`, `FriVerifier::new`, `verify`;
+//!       output `<parse>[ <chan-err | new-err:.. | err:.. | ok | panic>]` (not modelled).
+//!
 //! Outcome classes
 //!   parse: ok | err | eof | panic
 //!   front (everything `verify` does up to and including `VerifierChannel::new`; the stage is observed
@@ -767,6 +772,180 @@ fn exec_raw(t: &[&str]) -> Outcome {
     into_outcome(run_case(&bytes, Some(&vb), "c"), false)
 }
 
+// ------------------------------------------------------------------------------------ stand-alone FRI
+/// an honest FRI proof over the 64-bit field with Blake3_256: (proof bytes, layer commitments, evaluations,
+/// query positions)
+fn fri_base(log_n: u32, blowup: usize, folding: usize, remdeg: usize, nq: usize) -> (Vec<u8>, Vec<<Blake3_256<f64::BaseElement> as Hasher>::Digest>, Vec<f64::BaseElement>, Vec<usize>) {
+    use winter_fri::{DefaultProverChannel, FriOptions, FriProver};
+    use winter_utils::Serializable;
+    type B = f64::BaseElement;
+    type H = Blake3_256<B>;
+    let n = 1usize << log_n;
+    let options = FriOptions::new(blowup, folding, remdeg);
+    let mut p: Vec<B> = (0..n as u64).map(|i| B::new(i * i + 7)).collect();
+    p.resize(n * blowup, B::ZERO);
+    let tw = winter_math::fft::get_twiddles::<B>(n * blowup);
+    winter_math::fft::evaluate_poly(&mut p, &tw);
+    let mut channel = DefaultProverChannel::<B, H, DefaultRandomCoin<H>>::new(n * blowup, nq);
+    let mut prover = FriProver::new(options);
+    prover.build_layers(&mut channel, p.clone());
+    let positions = channel.draw_query_positions(0);
+    let proof = prover.build_proof(&positions);
+    let mut bytes = vec![];
+    proof.write_into(&mut bytes);
+    (bytes, channel.layer_commitments().to_vec(), p, positions)
+}
+
+fn exec_fri(t: &[&str]) -> Outcome {
+    // x <label> <log n> <blowup> <folding> <remdeg> <queries> <edits>
+    use winter_fri::{DefaultVerifierChannel, FriOptions, FriProof, FriVerifier};
+    use winter_utils::Deserializable;
+    type B = f64::BaseElement;
+    type H = Blake3_256<B>;
+    if t.len() != 8 {
+        return Outcome::ok("bad-op");
+    }
+    let nums: Vec<usize> = match t[2..7].iter().map(|x| x.parse::<usize>()).collect::<Result<Vec<_>, _>>() {
+        Ok(v) => v,
+        Err(_) => return Outcome::ok("bad-op"),
+    };
+    let (log_n, blowup, folding, remdeg, nq) = (nums[0] as u32, nums[1], nums[2], nums[3], nums[4]);
+    let base = match guarded(|| fri_base(log_n, blowup, folding, remdeg, nq)) {
+        Ok(b) => b,
+        Err(e) => return Outcome::ok("bad-base").fail("c06.harness.base", e),
+    };
+    let (mut bytes, commitments, evals, positions) = base;
+    if apply_edits(&mut bytes, t[7]).is_err() {
+        return Outcome::ok("bad-op");
+    }
+    let n = 1usize << log_n;
+    let lim = alloc_limit(bytes.len());
+    let mut o = Outcome::default();
+    let (r, growth) = measured(|| guarded(|| FriProof::read_from_bytes(&bytes)));
+    if growth > lim {
+        o = o.fail("c06.fri.parse.alloc", format!("FriProof::read_from_bytes on {} bytes requested {} bytes; input {}", bytes.len(), growth, short_hex(&bytes)));
+    }
+    let proof = match r {
+        Err(info) => {
+            o.out = "panic".into();
+            return o.fail(format!("c06.fri.parse.panic@{}", panic_loc(&info)), format!("FriProof::read_from_bytes panicked: {}; input {}", info, short_hex(&bytes)));
+        },
+        Ok(Err(DeserializationError::UnexpectedEOF)) => {
+            o.out = "eof".into();
+            return o;
+        },
+        Ok(Err(_)) => {
+            o.out = "err".into();
+            return o;
+        },
+        Ok(Ok(p)) => p,
+    };
+    let options = FriOptions::new(blowup, folding, remdeg);
+    let (r, growth) = measured(|| {
+        guarded(|| -> Result<String, String> {
+            let mut channel = DefaultVerifierChannel::<B, H>::new(proof, commitments.clone(), n * blowup, folding).map_err(|_| "chan-err".to_string())?;
+            let mut coin = DefaultRandomCoin::<H>::new(&[]);
+            let verifier = FriVerifier::new(&mut channel, &mut coin, options.clone(), n - 1).map_err(|e| format!("new-err:{:?}", e).split('(').next().unwrap_or("").to_string())?;
+            let q: Vec<B> = positions.iter().map(|&p| evals[p]).collect();
+            verifier.verify(&mut channel, &q, &positions).map_err(|e| format!("err:{:?}", e).split('(').next().unwrap_or("").to_string())?;
+            Ok("ok".to_string())
+        })
+    });
+    if growth > lim {
+        o = o.fail("c06.fri.verify.alloc", format!("FRI verification of a {}-byte proof requested {} bytes; input {}", bytes.len(), growth, short_hex(&bytes)));
+    }
+    match r {
+        Ok(Ok(s)) => o.out = format!("ok {}", s),
+        Ok(Err(s)) => o.out = format!("ok {}", s),
+        Err(info) => {
+            o.out = "ok panic".into();
+            o = o.fail(format!("c06.fri.panic@{}", panic_loc(&info)), format!("FRI verification panicked: {}; input {}", info, short_hex(&bytes)));
+        },
+    }
+    o
+}
+
+fn gen_fri(emit: &mut dyn FnMut(String), rng: &mut Rng, tier: Tier) {
+    let thorough = tier == Tier::Thorough;
+    for (log_n, blowup, folding, remdeg, nq) in [(4u32, 4usize, 2usize, 1usize, 3usize), (5, 2, 4, 1, 2), (4, 8, 4, 3, 4), (6, 2, 2, 7, 2)] {
+        let (bytes, _, _, _) = match guarded(|| fri_base(log_n, blowup, folding, remdeg, nq)) {
+            Ok(b) => b,
+            Err(_) => {
+                emit(format!("fri x base-failed {} {} {} {} {} -", log_n, blowup, folding, remdeg, nq));
+                continue;
+            },
+        };
+        let pre = format!("{} {} {} {} {}", log_n, blowup, folding, remdeg, nq);
+        let n = bytes.len();
+        emit(format!("fri x valid {} -", pre));
+        // the fields: layer count, value / path block lengths, node-vector counts, remainder length, partitions
+        let mut offs: Vec<(usize, usize, String)> = vec![(0, 1, "nlayers".into())];
+        let nl = bytes[0] as usize;
+        let mut p = 1usize;
+        let mut layer_ranges = vec![];
+        for k in 0..nl {
+            let s = p;
+            let vl = u32::from_le_bytes(bytes[p..p + 4].try_into().unwrap()) as usize;
+            offs.push((p, 4, "values.len".into()));
+            p += 4 + vl;
+            let pl = u32::from_le_bytes(bytes[p..p + 4].try_into().unwrap()) as usize;
+            offs.push((p, 4, "paths.len".into()));
+            if pl > 0 {
+                offs.push((p + 4, 1, "paths.nvec".into()));
+            }
+            if pl > 1 {
+                offs.push((p + 5, 1, "paths.ndig".into()));
+            }
+            p += 4 + pl;
+            layer_ranges.push((s, p - s));
+        }
+        offs.push((p, 2, "rem.len".into()));
+        let rl = u16::from_le_bytes(bytes[p..p + 2].try_into().unwrap()) as usize;
+        p += 2 + rl;
+        offs.push((p, 1, "partitions".into()));
+        for (off, len, name) in &offs {
+            let mut orig: u128 = 0;
+            for i in (0..*len).rev() {
+                orig = (orig << 8) | bytes[off + i] as u128;
+            }
+            let f = Fld { name: name.clone(), off: *off, len: *len, count: true };
+            let all = *len == 1;
+            for v in field_values(&f, orig, thorough || all && (name == "nlayers" || name == "partitions")) {
+                emit(format!("fri x field:{} {} s{}:{}", name, pre, off, le_hex(v, *len)));
+            }
+        }
+        // layers dropped / duplicated with a consistent count
+        if let Some((s, l)) = layer_ranges.first() {
+            emit(format!("fri x drop-layer {} s0:{:02x},d{}:{}", pre, nl - 1, s, l));
+            emit(format!("fri x dup-layer {} s0:{:02x},i{}:{}", pre, nl + 1, s, hex(&bytes[*s..*s + *l])));
+            let (ls, ll) = layer_ranges.last().unwrap();
+            emit(format!("fri x no-layers {} s0:00,d{}:{}", pre, s, ls + ll - s));
+            emit(format!("fri x drop-last-layer {} s0:{:02x},d{}:{}", pre, nl - 1, ls, ll));
+        }
+        for k in 0..n {
+            emit(format!("fri x trunc {} t{}", pre, k));
+        }
+        emit(format!("fri x append {} a00", pre));
+        emit(format!("fri x append {} a{}", pre, hex(&rng.bytes(9))));
+        let boundary = [0u8, 1, 0x7f, 0x80, 0xfe, 0xff];
+        for off in 0..n {
+            if thorough {
+                for v in boundary {
+                    if v != bytes[off] {
+                        emit(format!("fri x byte {} s{}:{:02x}", pre, off, v));
+                    }
+                }
+                for bit in 0..8 {
+                    emit(format!("fri x bit {} x{}:{:02x}", pre, off, 1u8 << bit));
+                }
+            } else {
+                emit(format!("fri x byte {} s{}:{:02x}", pre, off, *rng.pick(&boundary)));
+                emit(format!("fri x bit {} x{}:{:02x}", pre, off, 1u8 << rng.below(8)));
+            }
+        }
+    }
+}
+
 // ------------------------------------------------------------------------------------ generation
 fn le_hex(v: u128, len: usize) -> String {
     let mut s = String::new();
@@ -1046,9 +1225,14 @@ impl Prop for P {
                 (g.emit)(format!("raw x junk {} {} {}", b.cfg.name, ap, hex(&rng.bytes(k))));
             }
         }
+        {
+            let mut r = rng.fork();
+            gen_fri(g.emit, &mut r, tier);
+        }
         for (i, b) in bases.iter().enumerate() {
             // the two smallest configurations get the full single-byte treatment
-            let small = b.cfg.name == "sq8rp" || b.cfg.name == "fib62q";
+            // (thorough: every proof of at most 1130 bytes, i.e. 8 of the 13)
+            let small = b.cfg.name == "sq8rp" || b.cfg.name == "fib62q" || (tier == Tier::Thorough && b.bytes.len() <= 1130);
             let mut r = rng.fork();
             g.raw_budget = per_cfg;
             gen_for(&mut g, &mut r, b, tier, small, &bases);
@@ -1060,6 +1244,7 @@ impl Prop for P {
         match t.first().copied() {
             Some("mut") => exec_mut(&t[1..]),
             Some("raw") => exec_raw(&t[1..]),
+            Some("fri") => exec_fri(&t[1..]),
             _ => Outcome::ok("bad-op"),
         }
     }
